@@ -131,7 +131,17 @@ func checkCrash(t rep.Fataler, c CrashCase) {
 	default:
 		seen := map[int]bool{}
 		for _, p := range c.Picks {
-			if k := p%K + 1; !seen[k] {
+			// half of the kill points come from the shutdown of the run (final
+			// status, compaction, socket removal: the last 16 counted calls), a
+			// quarter from its start-up, the rest from anywhere
+			k := p/4%K + 1
+			switch p % 4 {
+			case 0, 2:
+				k = K - p/4%min(16, K)
+			case 3:
+				k = p/4%min(16, K) + 1
+			}
+			if !seen[k] {
 				seen[k] = true
 				ks = append(ks, k)
 			}
